@@ -15,6 +15,13 @@ CORPUS = [
     "let p = 'self q;\nlet q = { p };\nres /pq on get -> <q>;\n",
     "let node = { 'labels rec x [x], 'owner owner };\nlet owner = { 'name str, 'nodes [node] };\nres /nodes on get -> <node>;\n",
     "let f x = { 'l rec y [y], 'n (g x) };\nlet g x = f x;\nres / on get -> <f str>;\n",
+    # cycles through properties only (no schema to cut at), at several depths: rejected by the occurs check of the inference
+    "let a = 'p a;\nres / on get -> { a };\n",
+    "let a = 'p ('q a);\nres / on get -> { a };\n",
+    "let a = 'p ('q ('r ('s a)));\nres / on get -> { a };\n",
+    "let f x = 'p (g x);\nlet g y = 'q (f y);\nres / on get -> { f str };\n",
+    "let f x = 'p ('q ('r (f x)));\nres / on get -> { f num };\n",
+    "let a = 'p b;\nlet b = 'q c;\nlet c = 'r a;\nres / on get -> { a };\n",
 ]
 
 
